@@ -96,6 +96,106 @@ def engine_selftest() -> int:
     expect("formula: dead find+1<0", not satisfiable(Canon().formula(parse_expr("s.find('|') + 1 < 0"))))
     expect("formula: in-tuple", eq("c not in ('$', '<', '>')", "c != '$' and c != '<' and c != '>'"))
 
+    # --- must-state analysis (pending text flushed before use)
+    f3 = _func(
+        """
+        def f(xs):
+            p = ""
+            out = []
+            for x in xs:
+                if x.isalpha():
+                    if len(p) != 0:
+                        out.append(p)
+                        p = ""
+                    out.append(x)
+                else:
+                    p += x
+            return out
+        """
+    )
+    c3 = CFG(f3)
+    loop = f3.body[2]
+    flush_if = loop.body[0].body[0]
+    clear = c3.node_of(flush_if.body[1])
+    append_x = c3.node_of(loop.body[0].body[1])
+    kill = c3.node_of(loop.body[0].orelse[0])
+    tnode = c3.node_of(flush_if)
+    gedge = {(tnode, d, l) for d, l in c3.succ[tnode] if l == "F"}
+    st = c3.must_state({clear, c3.node_of(f3.body[0])}, {kill}, gedge)
+    expect("must_state: pending empty at the atom append", st[append_x] is True)
+    st2 = c3.must_state({c3.node_of(f3.body[0])}, {kill}, set())
+    expect("must_state (neg): without the flush the fact does not hold", st2[append_x] is False)
+
+    # --- A-NORM: trivial helper inlined, condition temporary propagated; a multi-statement helper is left alone
+    from sa.normalise import normalise
+
+    t = ast.parse(textwrap.dedent(
+        """
+        def _h(a, b):
+            return a.find(b) < 0
+
+        def _two(a):
+            a = a + 1
+            return a
+
+        def g(s, k):
+            c = _h(s, k)
+            if c:
+                raise ValueError(s)
+            return _two(k)
+        """
+    ))
+    stats = normalise(t)
+    gsrc = ast.unparse(t.body[2])
+    expect("normalise: helper inlined and temporary propagated", "if s.find(k) < 0:" in gsrc and "c =" not in gsrc and stats["helpers_inlined"] == 1)
+    expect("normalise (neg): multi-statement helper kept", "_two(k)" in gsrc)
+
+    # --- A-FRESH on a scratch package: a per-item verdict read in the next iteration is reported, a latch is not
+    import shutil
+    import tempfile
+
+    tmp = tempfile.mkdtemp(prefix="sa_selftest_")
+    try:
+        os.makedirs(os.path.join(tmp, "src", "gbigsmiles"))
+        with open(os.path.join(tmp, "src", "gbigsmiles", "m.py"), "w") as fh:
+            fh.write(textwrap.dedent(
+                """
+                def stale(pairs, t):
+                    ok = True
+                    out = []
+                    for a, b in pairs:
+                        if isinstance(b, t):
+                            ok = a.is_compatible(b)
+                        if ok:
+                            out.append((a, b))
+                    return out
+
+                def latch(xs):
+                    first = True
+                    for x in xs:
+                        if first:
+                            x.start()
+                        first = False
+
+                def fresh(pairs):
+                    out = []
+                    for a, b in pairs:
+                        ok = a.is_compatible(b)
+                        if ok:
+                            out.append(a)
+                    return out
+                """
+            ))
+        from sa.engine import Engine as _E
+        from sa.fresh import stale_reads
+
+        e2 = _E(tmp)
+        expect("fresh: stale per-item verdict reported", len(stale_reads(e2, e2.prog.func("m.stale"))) == 1)
+        expect("fresh (neg): latch not reported", stale_reads(e2, e2.prog.func("m.latch")) == [])
+        expect("fresh (neg): verdict assigned in the same iteration", stale_reads(e2, e2.prog.func("m.fresh")) == [])
+    finally:
+        shutil.rmtree(tmp, ignore_errors=True)
+
     # --- provenance on the real package + call resolution
     root = os.environ.get("VERIF_ROOT", "/repo")
     try:
